@@ -112,7 +112,7 @@ def run(ctx):
         # ------------------------------------------------ R1b handed-out iterators carry the right successor
         if fn.name in ("begin", "operator++") and not fn.params:
             handouts = []   # (node, next desc, iter desc)
-            for n in ig.ev_nodes(lambda n: n.id in live and n.frame.id == 0):
+            for n in ig.ev_nodes(lambda n: n.id in live and n.frame.owner_id == 0):
                 ev = n.ev
                 if ev["e"] == "ctor" and ITER.match(ev.get("type", "") or "") and len(ev.get("args", [])) == 2:
                     handouts.append((n, ig.rarg(n, 0), ig.rarg(n, 1)))
